@@ -26,8 +26,15 @@ func (req *Request) Construct() (method string, ustr string, err error) {
 	if err != nil {
 		return "", "", fmt.Errorf("invalid OCI request: %v", err)
 	}
-	if _, err := Parse(method, u); err != nil {
+	preq, err := Parse(method, u)
+	if err != nil {
 		return "", "", fmt.Errorf("invalid OCI request: %v", err)
+	}
+	// The names are pasted into the URL as they are, so a name that contains
+	// URL syntax (for example '?' or '#') can make for a well-formed request
+	// for something else: make sure that the URL means what was asked for.
+	if preq.Repo != req.Repo || preq.FromRepo != req.FromRepo || preq.tagOrDigest() != req.tagOrDigest() {
+		return "", "", fmt.Errorf("invalid OCI request: names are not preserved by the URL %q", ustr)
 	}
 	return method, ustr, nil
 }
